@@ -23,6 +23,10 @@ TRUSTED = ["hand-written model Model/Roc.lean of roc_curve_data -> binary_discre
 ASSUMPTIONS = ["forecasts / thresholds are dyadic in [0, 1.25] (including values a hair off a threshold: t -+ 2^-30 and the "
                "neighbouring float, handed to Lean as exact rationals), weights small dyadic: sums and comparisons are exact in "
                "float64; quotients compared to 1e-9",
+               "storage dtypes: forecasts also as float32 / float16 (values = float64 thresholds such as 0.1 ... 0.9, 1/3 "
+               "rounded to that dtype, and their neighbours) and as int64 / int32 / int8 / uint8 / bool arrays of 0/1, obs "
+               "also as integer / bool / float32 / float16; thresholds stay float64; the exact value of every stored "
+               "number is what Lean receives (float32(0.7) < 0.7 is not an event at 0.7)",
                "no dask input (F14 belongs to C04); fcst / obs / weights share coordinate labels in the same order",
                "float rounding is not modelled"]
 MANIFEST = dict(
@@ -40,7 +44,11 @@ MANIFEST = dict(
          "preserved dims incl. dimensions only obs / only fcst / only weights carry, argument checks); the same "
          "statements and the Mann-Whitney equality (thresholds containing 0, every forecast value and a larger value; weighted "
          "form with weights) are evaluated on the implementation against the Lean counting spec in exact rationals, "
-         "exhaustively for all forecast/observation vectors up to length 3 (quick) / 5 (thorough) over a 4-value pool.",
+         "exhaustively for all forecast/observation vectors up to length 3 (quick) / 5 (thorough) over a 4-value pool. "
+         "Forecasts stored as float32 / float16 / integer / bool against float64 thresholds the storage dtype cannot "
+         "represent are compared (correspondence and oracle, random and exhaustive up to length 3 / 4) by the exact "
+         "values of the stored numbers: a forecast equal to the threshold rounded to its dtype is an event iff that "
+         "exact value is >= the float64 threshold.",
     note="Trusted: Lean kernel; propext/Classical.choice/Quot.sound; the hand-written model, tied by the translator for the POD/POFD maps / "
          "quotients / call site and otherwise only by "
          "correspondence on dyadic inputs with tolerance 1e-9; SV.Fl (IEEE minus rounding, overflow, signed zero); the "
@@ -52,7 +60,9 @@ MANIFEST = dict(
 RULE = ("one case = (forecast array from a 5-value pool so most values coincide with a threshold -- in 30 % of the calls "
         "moved a hair (2^-30 or one ulp) below / above it --, binary obs with NaN, threshold list, weights, reduction, "
         "check_args; in 1/3 of the calls obs carries a dimension the forecast lacks and the forecast possibly one obs "
-        "lacks, weights on any of them or on a dimension of their own); distinct = distinct canonical call; non-trivial = some non-NaN "
+        "lacks, weights on any of them or on a dimension of their own; a further stream stores the forecast as float32 / "
+        "float16 with values = non-representable float64 thresholds (tenths, thirds) rounded to that dtype or a neighbour, "
+        "or as int / bool 0/1, and obs possibly as int / bool / narrow float); distinct = distinct canonical call; non-trivial = some non-NaN "
         "POD or POFD and not malformed")
 
 NAN = float("nan")
@@ -70,13 +80,20 @@ def build(call):
     size = sizes(call)
     coords = {d: list(range(n)) for d, n in size.items()}
 
-    def arr(vals, ds):
+    def arr(vals, ds, dtype=None):
         ds = list(ds)
-        return xr.DataArray(np.array(vals, dtype=float).reshape(tuple(size[d] for d in ds)), dims=ds,
-                            coords={d: coords[d] for d in ds})
+        a = np.array(vals, dtype=float).reshape(tuple(size[d] for d in ds))
+        if dtype is not None and dtype != "float64":
+            # storage dtype of the operand: the listed values ARE the exact values of the stored numbers (the generator
+            # rounds first), so the cast is value-preserving -- refuse anything else rather than compare garbage
+            b = a.astype(dtype)
+            if not np.array_equal(b.astype(float), a, equal_nan=True):
+                raise AssertionError("harness: values not representable in " + str(dtype))
+            a = b
+        return xr.DataArray(a, dims=ds, coords={d: coords[d] for d in ds})
 
-    f = arr(call["fcst"], call.get("fcst_dims", call["dims"]))
-    o = arr(call["obs"], call.get("obs_dims", call["dims"]))
+    f = arr(call["fcst"], call.get("fcst_dims", call["dims"]), call.get("fcst_dtype"))
+    o = arr(call["obs"], call.get("obs_dims", call["dims"]), call.get("obs_dtype"))
     w = None
     if call.get("weights") is not None:
         w = arr(call["weights"], call["weights_dims"])
@@ -321,8 +338,102 @@ def gen_call(rng, complete=False, malformed=False, layout=None, hairy=None):
     return call
 
 
+# ---- storage dtype of the operands.  The thresholds stay ordinary float64 numbers that the forecast's dtype cannot
+# represent (tenths, thirds); the forecast values are the roundings of such numbers to the storage dtype (and their
+# neighbours in that dtype).  Every float16 / float32 / small integer IS a float64, so `fcst >= t` has one truth value:
+# float32(0.7) = 0.699999988... is NOT >= 0.7 while float32(0.1) = 0.100000001... IS >= 0.1.  The Lean side receives the
+# exact value of the stored number as a rational, never a re-rounded one.
+DECIMALS = [0.1, 0.2, 0.3, 0.4, 0.6, 0.7, 0.8, 0.9, 1.0 / 3.0, 2.0 / 3.0, 0.35, 0.55, 0.05, 0.95]
+FLOAT_DTYPES = ["float32", "float32", "float16"]
+INT_DTYPES = ["int64", "int32", "int8", "uint8", "bool"]
+OBS_DTYPES = ["int64", "bool", "int8", "float32", "uint8", "float16"]
+
+
+def stored(v, dtype):
+    """the exact value (as a Python float) of the number that storing v in `dtype` yields"""
+    return float(np.array(v, dtype=float).astype(dtype))
+
+
+def neighbour(v, dtype, up):
+    """the next number of `dtype` below / above the stored number v (as an exact Python float)"""
+    dt = np.dtype(dtype).type
+    return float(np.nextafter(dt(v), dt(2.0 if up else -1.0)))
+
+
+def gen_dtype_call(rng, complete=False, layout=None, kind=None):
+    """a call whose forecast is stored as float32 / float16 (values: roundings of non-representable thresholds, their
+    neighbours in that dtype, 0, 1, NaN) or as an integer / bool array of 0/1, against float64 thresholds; sometimes obs
+    is stored as an integer / bool / narrower float as well.  Layout, weights and reduction come from gen_call."""
+    call = gen_call(rng, complete=complete, layout=layout, hairy=False)
+    n = len(call["fcst"])
+    if kind is None:
+        kind = "float" if rng.random() < 0.75 else "int"
+    if kind == "float":
+        dt = rng.choice(FLOAT_DTYPES)
+        base = rng.sample(DECIMALS, rng.choice([1, 2, 3, 4]))
+        if rng.random() < 0.7:
+            # make sure one of the base values is rounded DOWN by the storage dtype (stored value < threshold)
+            down = [t for t in DECIMALS if stored(t, dt) < t]
+            base[rng.randrange(len(base))] = rng.choice(down)
+        vals = [stored(t, dt) for t in base]
+        pool = list(vals)
+        if rng.random() < 0.4:
+            pool += [neighbour(rng.choice(vals), dt, rng.random() < 0.5)]
+        if rng.random() < 0.5:
+            pool += [rng.choice([0.0, 1.0, 0.5, 0.25])]
+        fc = [rng.choice(pool) if rng.random() < 0.9 else NAN for _ in range(n)]
+        cand = list(base) + [0.5, 0.25]
+    else:
+        dt = rng.choice(INT_DTYPES)
+        base = []
+        fc = [float(rng.choice([0, 1])) for _ in range(n)]
+        if rng.random() < 0.15:
+            fc = [float(rng.choice([0, 1]))] * n
+        cand = DECIMALS + [0.5, 1.0]
+    call["fcst"] = fc
+    call["fcst_dtype"] = dt
+    present = sorted({v for v in fc if not math.isnan(v)})
+    if complete:
+        # 0, every stored forecast value, something above the largest -- and the un-rounded numbers next to them
+        top = min(1.0, max(present) + 0.25) if present and max(present) < 1.0 else 1.25
+        ts = set([0.0] + present + [top]) | set(base)
+        if rng.random() < 0.4:
+            ts |= set(rng.sample(DECIMALS, 2))
+        ts = sorted(ts)
+        if rng.random() < 0.25:
+            ts = sorted(ts + [rng.choice(ts)])
+        call["thresholds"] = ts
+        call["check_args"] = max(ts) <= 1 and rng.random() < 0.8
+    else:
+        k = rng.choice([1, 2, 3, 4, 5, 6])
+        ts = [rng.choice(cand) if rng.random() < 0.8 else rng.choice(DECIMALS + (present or [0.5])) for _ in range(k)]
+        if rng.random() < 0.25:
+            ts = [round(0.1 * i, 1) for i in range(11)]       # the customary 0, 0.1, ..., 1
+        ts = sorted(ts)
+        if rng.random() < 0.5 and ts[0] != 0.0:
+            ts = [0.0] + ts
+        call["thresholds"] = ts
+        call["check_args"] = rng.random() < 0.7
+    if rng.random() < 0.35:
+        odt = rng.choice(OBS_DTYPES)
+        if np.dtype(odt).kind != "f":
+            call["obs"] = [float(rng.choice([0, 1])) if math.isnan(v) else v for v in call["obs"]]
+        call["obs_dtype"] = odt
+    return call
+
+
 def describe(call):
     return dict(call)
+
+
+def rounded_threshold_hit(call):
+    """some forecast value differs from a threshold t but equals t rounded to the forecast's storage dtype (the class
+    where comparing in the precision of the data instead of exactly would show)"""
+    dt = call.get("fcst_dtype")
+    if dt is None or np.dtype(dt).kind != "f":
+        return False
+    vals = {v for v in call["fcst"] if not math.isnan(v)}
+    return any(t not in vals and stored(t, dt) in vals for t in call["thresholds"] if not math.isnan(t))
 
 
 def obs_only_dims(call):
@@ -350,6 +461,12 @@ def tag_inputs(ctx, call):
         ctx.tag("weights-only-dim")
     if len(call["fcst"]) <= 400 and near_threshold(call):
         ctx.tag("fcst-a-hair-off-threshold")
+    if call.get("fcst_dtype") is not None:
+        ctx.tag("fcst-dtype:" + str(call["fcst_dtype"]))
+        if len(call["fcst"]) <= 400 and rounded_threshold_hit(call):
+            ctx.tag("fcst-eq-threshold-rounded-to-its-dtype")
+    if call.get("obs_dtype") is not None:
+        ctx.tag("obs-dtype:" + str(call["obs_dtype"]))
 
 
 def nontrivial(res):
@@ -368,6 +485,7 @@ def correspondence(ctx):
     rng = ctx.rng
     calls = [gen_call(rng, complete=rng.random() < 0.3) for _ in range(ctx.n(220, 5000))]
     calls += [gen_call(rng, malformed=True) for _ in range(ctx.n(40, 700))]
+    calls += [gen_dtype_call(rng, complete=rng.random() < 0.3) for _ in range(ctx.n(70, 1500))]
     ops, idx = [], []
     for ci, c in enumerate(calls):
         fv, ov = all_vals(c)
@@ -443,6 +561,9 @@ class Checker:
             # report the single ROC curve that fails as a self-contained 1-D call (when it fails on its own)
             small = {"dims": ["k"], "shape": [len(tr)], "fcst": [p[0] for p in tr], "obs_dims": ["k"], "obs": [p[1] for p in tr],
                      "thresholds": list(call["thresholds"]), "check_args": bool(call.get("check_args", True))}
+            for kk in ("fcst_dtype", "obs_dtype"):
+                if call.get(kk) is not None:
+                    small[kk] = call[kk]
             if tr and tr[0][2] is not None:
                 small["weights_dims"] = ["k"]
                 small["weights"] = [p[2] for p in tr]
@@ -586,6 +707,46 @@ def exhaustive_hair_calls(nmax):
     return calls
 
 
+DTYPE_BASE = [0.1, 0.3, 0.7, 0.9]       # float32 rounds 0.7, 0.9 down and 0.1, 0.3 up; float16 rounds 0.1, 0.9 down, 0.3, 0.7 up
+DTYPE_THRESHOLDS = [0.0, 0.1, 0.3, 0.7, 0.9, 1.0]
+
+
+def exhaustive_dtype_calls(nmax):
+    """float32 and float16 forecasts: every vector over {0.1, 0.3, 0.7, 0.9 rounded to the storage dtype} x every binary
+    obs vector, float64 thresholds {0, 0.1, 0.3, 0.7, 0.9, 1} (a stored value rounded down is NOT an event at its own
+    threshold) and those plus the stored values (Mann-Whitney applies to every row); integer / bool forecasts: every
+    0/1 vector x every binary obs vector against thresholds {0, 0.1, 0.5, 0.9, 1}"""
+    calls = []
+    for dt in ("float32", "float16"):
+        pool = [stored(t, dt) for t in DTYPE_BASE]
+        for n in range(1, nmax + 1):
+            rows_f, rows_o = [], []
+            for fs in itertools.product(pool, repeat=n):
+                for os_ in itertools.product([0.0, 1.0], repeat=n):
+                    rows_f += list(fs)
+                    rows_o += list(os_)
+            m = len(rows_f) // n
+            calls.append({"dims": ["a", "b"], "shape": [m, n], "fcst": rows_f, "fcst_dtype": dt, "obs_dims": ["a", "b"],
+                          "obs": rows_o, "thresholds": list(DTYPE_THRESHOLDS), "check_args": n % 2 == 1,
+                          "preserve_dims": ["a"]})
+            calls.append(dict(calls[-1], thresholds=sorted(set(DTYPE_THRESHOLDS + pool))))
+    for dt, odt in (("int64", None), ("bool", "bool"), ("int8", "int64"), ("uint8", None)):
+        for n in range(1, nmax + 1):
+            rows_f, rows_o = [], []
+            for fs in itertools.product([0.0, 1.0], repeat=n):
+                for os_ in itertools.product([0.0, 1.0], repeat=n):
+                    rows_f += list(fs)
+                    rows_o += list(os_)
+            m = len(rows_f) // n
+            c = {"dims": ["a", "b"], "shape": [m, n], "fcst": rows_f, "fcst_dtype": dt, "obs_dims": ["a", "b"],
+                 "obs": rows_o, "thresholds": [0.0, 0.1, 0.5, 0.9, 1.0], "check_args": n % 2 == 0, "preserve_dims": ["a"]}
+            if odt is not None:
+                c["obs_dtype"] = odt
+            calls.append(c)
+            calls.append(dict(c, thresholds=[0.0, 1.0 / 3.0, 1.0, 1.25], check_args=False))
+    return calls
+
+
 def dims_sweep_calls(rng):
     """every layout in which obs carries a dimension the forecast lacks x every reduce_dims / preserve_dims request
     over the data dimensions (random values, with and without weights)"""
@@ -613,6 +774,7 @@ def oracle(ctx, boost):
     ch = Checker(ctx)
     calls = [gen_call(rng, complete=rng.random() < 0.5) for _ in range(ctx.n(250, 6000) * k)]
     calls += [gen_call(rng, complete=rng.random() < 0.5, hairy=True) for _ in range(ctx.n(60, 1200) * k)]
+    calls += [gen_dtype_call(rng, complete=rng.random() < 0.5) for _ in range(ctx.n(90, 2000) * k)]
     calls += dims_sweep_calls(rng)
     ch.run(calls)
     nmax = 5 if (ctx.thorough or boost) else 3
@@ -624,6 +786,11 @@ def oracle(ctx, boost):
                           f"vectors, n <= {hmax}, thresholds {{0,1/4,1/2,1/2 + 2^-30,1}} and those plus the pool: a forecast a "
                           "hair below a threshold is not an event")
     ch.run(exhaustive_hair_calls(hmax))
+    ctx.exhaustive.append(f"float32 / float16 forecasts: all vectors over {{0.1, 0.3, 0.7, 0.9 rounded to the storage dtype}} x "
+                          f"all binary obs vectors, n <= {hmax}, float64 thresholds {{0,0.1,0.3,0.7,0.9,1}} and those plus the "
+                          "stored values (a stored value below its threshold is not an event); int64 / int8 / uint8 / bool "
+                          "forecasts: all 0/1 vectors x all binary obs vectors against {0,0.1,0.5,0.9,1} and {0,1/3,1,5/4}")
+    ch.run(exhaustive_dtype_calls(hmax))
     ctx.exhaustive.append("5 layouts where obs carries a dimension the forecast lacks x every reduce_dims / preserve_dims "
                           "subset of the data dimensions: one curve per label of every kept dimension")
 
